@@ -6,6 +6,9 @@ import FordModel.Reader
 import FordModel.Lemmas.Split
 import FordModel.Lemmas.Reader
 import FordModel.Lemmas.ReaderLayout
+import FordModel.Lemmas.ReaderSplit
+import FordModel.InitialValue
+import FordModel.Lemmas.InitialValue
 namespace Ford.C02
 open Ford
 
@@ -141,6 +144,102 @@ example :
     (match readAll Marks.default ["x = 'a;b' &".toList, "! c".toList, "  & // 'it''s' ! tail".toList] with
       | .ok items => items == ["x = 'a;b'  // 'it''s'".toList]
       | .error _ => false) = true := by decide
+
+/-- **Cutting a line with `&` ... `&` never changes the statements - exactly.**  Take the
+    statement(s) written on one physical line `l1`, and the same text cut at any positions - in
+    the middle of a name, a number, an operator such as `**` or `=>`, or a character literal -
+    into a first line `x r &`, any number of lines `& piece &` mixed with blank lines, comment
+    lines and `&`-only lines, and a last line `& b`.  Both layouts give the same items (equal
+    strings, not merely equal modulo blanks): nothing is inserted between the pieces, so a token
+    continued across lines stays one token.  No bound on the number or length of the pieces. -/
+theorem cut_with_amp_is_exact (m : Marks) (l0 l1 : Str) (x : Char) (r : Str) (mids : List Mid)
+    (lines : List Str) (ln b : Str) (rest : List Str)
+    (h0 : NoDoc m false l0) (hc0 : codeOf false l0 = x :: r ++ ['&']) (hx : x ≠ '&')
+    (hd : ∀ mid ∈ mids, mid.direct)
+    (hr : Rendered m (' ' :: x :: r) mids lines)
+    (hn : NoDoc m (unterminated (' ' :: x :: r ++ (mids.map Mid.text).flatten)) ln)
+    (hcn : codeOf (unterminated (' ' :: x :: r ++ (mids.map Mid.text).flatten)) ln = '&' :: b)
+    (h1 : NoDoc m false l1) (hc1 : codeOf false l1 = x :: r ++ (mids.map Mid.text).flatten ++ b)
+    (hb : isBlank b = false) (hl : b.getLast? ≠ some '&')
+    (hJ : itemsOf (' ' :: x :: r ++ (mids.map Mid.text).flatten ++ b) ≠ []) :
+    readFrom m (qs [] false) (l0 :: lines ++ ln :: rest) = readFrom m (qs [] false) (l1 :: rest) :=
+  split_exact m l0 l1 x r mids lines ln b rest h0 hc0 hx hd hr hn hcn h1 hc1 hb hl hJ
+
+/-- non-vacuity of `cut_with_amp_is_exact`: a name, a number and `**` cut in the middle -/
+example :
+    (readAll Marks.default ["big_num&".toList, "  ! c".toList, " &ber = 12&".toList, "&3 *&".toList,
+        "   &* 2".toList]).toOption =
+      (readAll Marks.default ["big_number = 123 ** 2".toList]).toOption := by decide
+
+/-- ... while a continuation line *without* leading `&` starts a new token: one blank -/
+example :
+    (readAll Marks.default ["x = a&".toList, "  b".toList]).toOption = some ["x = a b".toList] := by decide
+
+/-! ## the parser's second masking pass: initial values
+
+  `regexSources` and `initialSteps` are regenerated from ford/reader.py and ford/sourceform.py
+  on every run (translate/c02.py). -/
+
+open Ford.Show Ford.InitialValue in
+/-- **Literal text in an initial value is preserved verbatim, whatever it contains.**  For every
+    masked initial-value expression - code pieces without blanks and placeholders of well-formed
+    literals, no two literals adjacent - the `if initial:` block of `line_to_variables`, *with
+    its statements in the order they have in the source*, returns the expression in which the
+    comma tidy-up has touched the code pieces only and every literal stands whole, changed only
+    by the NBSP substitution (`nbsp_reads_as_blank` below): commas, `;`, `!`, `&`, quotes,
+    placeholders-look-alikes or keywords inside a literal are never treated as syntax. -/
+theorem initial_value_literals_verbatim (strings : List Str) (ps : List Piece)
+    (hw : WellMasked strings ps) (hn : NoBlank ps) :
+    initialValue strings (maskedText ps) = .ok (restoredText strings (ps.map Piece.tidy)) := by
+  simp only [initialValue, Generated.C02.initialSteps, Generated.C02.restoreNbsp,
+    Generated.C02.restoreDoubleBs, runSteps, applyStep]
+  rw [commaSpace_maskedText strings ps hw hn, reinsert_pieces strings _ (wellMasked_tidy strings ps hw)]
+
+open Ford.Show Ford.InitialValue in
+/-- ... in particular an initial value that *is* a literal comes back as that literal -/
+theorem initial_value_single_literal (q : Char) (body : Str) (hq : isQuote q = true)
+    (hb : litTail q body = true) :
+    initialValue [q :: body] (maskOf 0) = .ok (nbsp (q :: body)) := by
+  have hw : WellMasked [q :: body] [.ph ['0']] :=
+    ⟨⟨0, q, body, by decide, rfl, hq, hb⟩, trivial, trivial⟩
+  have h := initial_value_literals_verbatim [q :: body] [.ph ['0']] hw trivial
+  have e : maskedText [.ph ['0']] = maskOf 0 := by decide
+  rw [e] at h
+  rw [h]
+  simp [restoredText, Piece.tidy, litOf, parseNat?, isDigit]
+
+open Ford.Show in
+/-- the NBSP substitution only turns blanks into non-breaking blanks: read with NBSP as a blank
+    the literal is the source text, character for character -/
+theorem nbsp_reads_as_blank (s : Str) (h : ∀ c ∈ s, c ≠ nbspChar) : unNbsp (nbsp s) = s :=
+  unNbsp_nbspGo s false h
+
+open Ford.Show Ford.InitialValue in
+/-- the order of the two steps matters: tidying commas *after* the literals are back rewrites
+    the literal `','` to `', '` (what the property forbids) - hence the order is taken from the
+    source and `initial_value_literals_verbatim` is stated over it -/
+theorem comma_tidy_after_restore_witness :
+    (runSteps true true ["','".toList] [.restore, .commaTidy] "\"0\"".toList).toOption = some "', '".toList ∧
+    (runSteps true true ["','".toList] [.commaTidy, .restore] "\"0\"".toList).toOption = some "','".toList := by
+  decide
+
+open Ford.Show Ford.InitialValue in
+/-- non-vacuity: `[ 'a,b', "x;!&" // c ]` as `line_to_variables` records it -/
+example :
+    (initialValue ["'a,b'".toList, "\"x;!&\"".toList] "[\"0\",\"1\"//c]".toList).toOption
+      = some "['a,b', \"x;!&\"//c]".toList := by decide
+
+/-- The regular expressions whose deterministic readings the model's recognisers are
+    (`comScan` for `COM_RE` and the doc-mark pattern; `Show.litEnd`/`searchQuote` for `QUOTES_RE`;
+    `Show.commaSpace` for `COMMA_RE`; `Show.nbsp` for `NBSP_RE`) are the ones in the source: an
+    edit of any of these patterns changes this obligation. -/
+theorem regex_sources_pinned :
+    Generated.C02.regexSources = [
+      ("ford.reader", "FortranReader.COM_RE", "^([^\"'!]|('[^']*')|(\"[^\"]*\"))*(!.*)$", 32),
+      ("ford.reader", "_compile_docmark(@)", "^([^\"'!]|('[^']*')|(\"[^\"]*\"))*(!@.*)$", 32),
+      ("ford.sourceform", "QUOTES_RE", "\\\"([^\\\"]|\\\"\\\")*\\\"|'([^']|'')*'", 34),
+      ("ford.sourceform", "COMMA_RE", ",(?!\\s)", 32),
+      ("ford.sourceform", "NBSP_RE", " (?= )|(?<= ) ", 32)] := rfl
 
 /-- Historical witness of the defect repaired by the `fix:` commit 389e6bb: the old
     previous-character test called the closed literal `''` unterminated; the
